@@ -151,7 +151,7 @@ def run_engine(ctx: Ctx) -> dict:
         inst, hs, none = args[:3]
         exhaustive = len(args) > 3 and args[3]
         seed0 = ctx.seed * 100000 + hs * 1000
-        out, meta = _record(scratch, inst, seed0, -5000 if exhaustive else n_per, hs, ("" if not exhaustive else "") or none,
+        out, meta = _record(scratch, inst, seed0, (-600 if ctx.quick else -5000) if exhaustive else n_per, hs, ("" if not exhaustive else "") or none,
                             tag="all" if exhaustive else "")
         traces = json.loads(out.read_text())
         verdicts = _validate(scratch, inst, out, meta["comp_of"], False, 1200)
@@ -169,7 +169,7 @@ def run_engine(ctx: Ctx) -> dict:
                 "ends": _count(t[-1]["ev"] for t in traces if t), "bad": bad, "sample": sample}
 
     # model checking: in the thorough tier the largest shapes (4 tasks on 3 hosts or 2x2) are covered by traces only
-    mc_insts = insts if ctx.quick else [i for i in insts if not (len(i.outs) >= 4 and (len(i.hosts) >= 3 or
+    mc_insts = [i for i in insts if not i.trace_only] if ctx.quick else [i for i in insts if len(i.outs) <= 4 and not (len(i.outs) >= 4 and (len(i.hosts) >= 3 or
                                                                   (len(i.hosts) == 2 and max(len(w) for w in i.hosts.values()) >= 2)))]
     with ThreadPoolExecutor(max_workers=JVM_SLOTS) as tp:
         res["mc"] = list(tp.map(job_mc, mc_insts))
